@@ -263,6 +263,18 @@ func Mutations(s *spec.Spec) []*Mutation {
 					return `Security("` + NoScheme + `"`
 				})
 			}})
+		// the same requirement keeps its real scheme and gains an undefined one after it
+		out = append(out, &Mutation{Class: "security-scheme-after-valid", Name: NoScheme, Site: "first Security requirement, second position", Apply: func() {},
+			Text: func(dsl string) string {
+				done := false
+				return secRe.ReplaceAllStringFunc(dsl, func(m string) string {
+					if done {
+						return m
+					}
+					done = true
+					return m + `, "` + NoScheme + `"`
+				})
+			}})
 	}
 	return out
 }
